@@ -220,15 +220,24 @@ public:
         if (ec == asio::error::no_recovery)
             _svc.cancel();
 
-        // errors, if any, are propagated to ops
-        for (auto& op : write_queue)
-            op.complete(ec);
-
         if (
             ec == asio::error::operation_aborted ||
             ec == asio::error::no_recovery
-        )
+        ) {
+            // requests queued while the aborted write was in flight
+            // (after the queue had been cancelled) must complete as well;
+            // done first, because completing the ops below may release
+            // the last reference to the service that owns this sender
+            cancel();
+
+            for (auto& op : write_queue)
+                op.complete(ec);
             return;
+        }
+
+        // errors, if any, are propagated to ops
+        for (auto& op : write_queue)
+            op.complete(ec);
 
         do_write();
     }
